@@ -320,6 +320,14 @@ def step (line : String) : String :=
     let size := size.toNat!
     let r := W3j.calculate (α := Float) size (Array.replicate (4*size) (bf poison)) j2.toInt! j3.toInt! m2.toInt! m3.toInt!
     if r.raised then "raised" else join (r.f.map fb)
+  | ["genw3j1", j1, j2, j3, m1, m2, m3] =>
+    -- the GENERATED front end `Wigner3j` (Gen/W3jKern.lean): result cell = array 4, the fresh calculator's workspace = array 3 (zero-filled by np.zeros)
+    let st0 : HFMem Float := { map := ∅, dflt := 0.0 }
+    let st := Gen.Wigner3j (α := Float) 4 3 j1.toInt! j2.toInt! j3.toInt! m1.toInt! m2.toInt! m3.toInt! st0
+    fb (frd (α := Float) st 4 0)
+  | ["gencg", j1, m1, j2, m2, j3, m3] =>
+    let st0 : HFMem Float := { map := ∅, dflt := 0.0 }
+    fb (Gen.clebsch_gordan (α := Float) 4 3 j1.toInt! m1.toInt! j2.toInt! m2.toInt! j3.toInt! m3.toInt! st0)
   | ["w3j1", j1, j2, j3, m1, m2, m3] =>
     match W3j.wigner3j (α := Float) j1.toInt! j2.toInt! j3.toInt! m1.toInt! m2.toInt! m3.toInt! with
     | some v => fb v
